@@ -216,7 +216,8 @@ def is_in_stdlib(name: ModuleName) -> bool:
     >>> is_stdlib_module("pytest.fixture")
     False
     """
-    return place_module(name) == sections.STDLIB
+    # NOTE isort places `__future__` in its own section, it is an stdlib module
+    return place_module(name) in (sections.STDLIB, sections.FUTURE)
 
 
 @cache
